@@ -64,6 +64,8 @@ def normalise(sc):
     sc.setdefault("stop", "time")
     sc.setdefault("maxc", 0)
     sc.setdefault("tracker", "none")
+    sc.setdefault("observed", list(range(N)))
+    sc.setdefault("groups", [[n] for n in range(N)])
     sc.setdefault("detector", "none")
     sc.setdefault("exact", 0)
     sc.setdefault("dev", [])
@@ -290,7 +292,7 @@ def to_cfg(sc):
         return [F(v) for v in lst]
     cfg = {"N": sc["N"], "K": sc["K"], "P": len(set(sc["prio"])), "prio": list(sc["prio"]),
            "syscap": sc["syscap"], "T": F(sc["T"]) if sc["T"] < INF else INF, "stop": sc["stop"], "maxc": sc["maxc"],
-           "tracker": sc["tracker"], "detector": sc["detector"], "exact": sc["exact"], "dev": list(sc["dev"]),
+           "tracker": sc["tracker"], "observed": list(sc["observed"]), "groups": [list(g) for g in sc["groups"]], "detector": sc["detector"], "exact": sc["exact"], "dev": list(sc["dev"]),
            "arrS": [[fl(c) for c in n] for n in sc["arrS"]],
            "batchS": [[list(c) for c in n] for n in sc["batchS"]],
            "svcS": [[fl(c) if c else [F(1)] for c in n] for n in sc["svcS"]],
